@@ -161,7 +161,7 @@ def check_lists(s, nodes, acc, sub='split'):
                             break
 
 
-def check_node_split(s, nodes, acc):
+def check_node_split(s, nodes, acc, none_at=None):
     from pylatexenc.latexnodes.nodes import LatexNodeList
     preds = [('is-group', lambda n: canon.kind_of(n) == 'group'), ('is-macro', lambda n: canon.kind_of(n) == 'macro'),
              ('is-comma-chars', lambda n: canon.kind_of(n) == 'chars' and ',' in n.chars)]
@@ -170,7 +170,7 @@ def check_node_split(s, nodes, acc):
         for keep_sep in (False, True):
             for max_split in (None, 0, 1, 2):
                 nl = LatexNodeList(list(nodes), latex_walker=None)
-                case = dict(s=s, pred=pname, keep_separators=keep_sep, max_split=max_split)
+                case = dict(s=s, pred=pname, keep_separators=keep_sep, max_split=max_split, none_at=none_at)
                 acc.count('evaluations')
                 st, res = run_guarded(nl.split_at_node, pred, keep_separators=keep_sep, max_split=max_split)
                 if st != 'ok':
@@ -388,6 +388,7 @@ def run_shard(shard, tier, acc):
             for i in range(len(nodes) + 1):
                 withnone = nodes[:i] + [None] + nodes[i:]
                 check_lists(s, withnone, acc, sub='split-none')
+                check_node_split(s, withnone, acc, none_at=i)
         acc.sample(dict(s=s))
 
 
@@ -403,7 +404,10 @@ def replay(sub, case):
     elif sub == 'kvpure':
         check_keyval_purity(case['s'], acc)
     elif sub in ('nodesplit', 'filter'):
-        check_node_split(case['s'], nodes, acc)
+        if case.get('none_at') is not None:
+            i = case['none_at']
+            nodes = nodes[:i] + [None] + nodes[i:]
+        check_node_split(case['s'], nodes, acc, none_at=case.get('none_at'))
     else:
         check_keyval(case['s'], nodelist, acc)
     return acc.violations
